@@ -1039,6 +1039,11 @@ func (ps *PeerState) SetHasProposal(proposal *types.Proposal) {
 		return
 	}
 
+	// A block has at most MaxBlockPartsCount parts: no bit array is sized by a larger claim.
+	if proposal.POLBlockID.PartsHeader.Total > types.MaxBlockPartsCount {
+		return
+	}
+
 	ps.PRS.Proposal = true
 
 	// ps.PRS.ProposalBlockParts is set due to NewValidBlockMessage
